@@ -124,3 +124,7 @@
 (assert (forall ((a Bytes) (b Bytes) (p Bytes)) (! (=> (hasPrefix a p) (hasPrefix (bcat a b) p)) :pattern ((hasPrefix (bcat a b) p)))))
 ; joining a valid component makes a clean path strictly longer (so no path is its own descendant)
 (assert (forall ((a Bytes) (b Bytes)) (! (=> (validName b) (> (blen (pjoin a b)) (blen a))) :pattern ((pjoin a b)))))
+; filepath.Dir never lengthens a path, and a path that is not its own parent is strictly longer than its parent;
+; the absolute form of (the parent of) an absolute path is that path itself
+(assert (forall ((p Bytes)) (! (and (<= (blen (pdir p)) (blen p)) (=> (not (= (pdir p) p)) (< (blen (pdir p)) (blen p)))) :pattern ((pdir p)))))
+(assert (forall ((p Bytes)) (! (= (absPath (pdir (absPath p))) (pdir (absPath p))) :pattern ((pdir (absPath p))))))
